@@ -89,7 +89,7 @@ func c17Exec(c *c17Case) c17Outcome {
 	}
 	var out c17Outcome
 	// phase 1 (not timed): get to the state in which the timed call is made
-	if c.Call == "send" || c.Call == "reset" {
+	if c.Call == "send" || c.Call == "reset" || c.Call == "redial" {
 		r := watchdog(bound, d, func() error { return cl.DialWithContext(context.Background()) })
 		if r.TimedOut || r.Err != nil || r.Panic != nil {
 			// the stall point lies in the dial dialogue: covered by the dial cases
@@ -105,7 +105,8 @@ func c17Exec(c *c17Case) c17Outcome {
 	}
 	r := watchdog(bound, d, func() error {
 		switch c.Call {
-		case "dial":
+		case "dial", "redial":
+			// redial: the Client holds an established connection (phase 1) on which the server has gone silent
 			return cl.DialWithContext(ctx)
 		case "dialandsend":
 			return cl.DialAndSendWithContext(ctx, mk())
@@ -280,6 +281,17 @@ func c17Configs() []c17Case {
 	// DialAndSend again after a DialAndSend that timed out (the server stays silent at the same step)
 	for _, st := range []string{"greet", "ehlo#1", "noop#1", "mail#1", "data#1", "eod#1", "quit"} {
 		out = append(out, c17Case{Cfg: smtpCfg{TLS: "none"}, Caps: []string{"8BITMIME"}, StallStep: st, Call: "dialandsend", Then: "dialandsend"})
+	}
+	// a second DialWithContext on a Client whose established connection has gone silent: whatever the
+	// library does with the old connection (today: nothing) must be bounded as well
+	for _, cfg := range []smtpCfg{{TLS: "none"}, {TLS: "mandatory"}, {TLS: "none", NoNoop: true}} {
+		caps := []string{"8BITMIME"}
+		if cfg.TLS == "mandatory" {
+			caps = []string{"STARTTLS", "8BITMIME"}
+		}
+		for _, st := range []string{"noop#1", "rset#1", "quit"} {
+			out = append(out, c17Case{Cfg: cfg, Caps: caps, StallStep: st, Call: "redial"})
+		}
 	}
 	// WithoutNoop: the connection check sends no NOOP, the deadline must be armed all the same
 	for _, st := range []string{"mail#1", "rcpt#1.1", "data#1", "content", "eod#1", "rset#1"} {
